@@ -489,7 +489,7 @@ class Kinds:
                 if tail == "adj" and rk[1] == "face_corners":
                     return F
                 return None
-            if tail in ("as_array",) and isinstance(rk, tuple) and rk[0] == "idx":
+            if tail in ("as_array",) and (isinstance(rk, tuple) and rk[0] == "idx" or rk == ANY):
                 return rk
             if tail == "copy" and rk is not None:
                 return rk
